@@ -294,6 +294,23 @@ def check(case):
             L.fix_parameters({names_all[k]: None for k in ks})
             case.close(L(params.copy()), want, rtol=1e-9, what='log-likelihood after releasing them again')
 
+    # The user hands over an already REDUCED mechanistic model (one parameter that is not the first one fixed, the model
+    # used for a simulation at other values before): the likelihood works on its own copy of it with the same fixed value.
+    if s['oos'] is None and ll['n_par'] >= 2:
+        with case.clause('user_reduced_model'):
+            import chi
+            inner = llbuild.build_model(ll)
+            red = chi.ReducedMechanisticModel(inner)
+            k = ll['n_par'] - 1
+            red.fix_parameters({inner.parameters()[k]: float(params[k])})
+            red.simulate(np.delete(params[:ll['n_par']], k) * 1.37 + 0.11, np.array([0.3, 0.9]))
+            L_r = llbuild.build_ll(ll, model=red)
+            case.equal(L_r.n_parameters(), len(params) - 1, 'n_parameters of a likelihood over a reduced model')
+            case.close(L_r(np.delete(params, k)), want, rtol=1e-9,
+                       what='log-likelihood over a user-supplied reduced model (parameter %d fixed at its value)' % k)
+            case.close(np.sum(L_r.compute_pointwise_ll(np.delete(params, k))), want, rtol=1e-9,
+                       what='sum(pointwise) over a user-supplied reduced model')
+
     # The user goes on using their own model object (e.g. for a second likelihood over the outputs in another order):
     # the likelihood constructed before keeps scoring its observations against its own outputs.
     if s['oos'] is None:
